@@ -154,6 +154,7 @@ class Interp:
             elif p == 'engine':
                 self.engine = p
         self.option_funcs = {}
+        self.passthrough = []   # kinds returned as the identical object
 
     # -- options ------------------------------------------------------------
     def option_of(self, call):
@@ -485,6 +486,8 @@ class Interp:
         if isinstance(out, Shape) and out is not shape:
             out.origin = shape
         elif isinstance(out, Shape):
+            # the converter handed back the very object it was given
+            self.passthrough.append(shape.kind)
             out = Shape(out.kind, out.kids)
             out.origin = shape
         return out
